@@ -1198,4 +1198,259 @@ example : (fun r : Conn × LoopRes => (r.1.peer.authenticated, r.1.peer.did, r.1
     (connectOutbound exE "" [exOut ["S"] ["did:nuts:v"] (some ["v.example"]) "p1"]) = (false, "", 1, .blocked) := by decide
 example : CertCovers exE "did:nuts:v" (some ["v.example"]) := ⟨["v.example"], "v.example", "v.example", rfl, rfl, rfl, by decide⟩
 
+
+/-! ### Deepening round 3: inbound streams and outbound connections on ONE connection list (the inbound lookup also matches a
+    connection this node dialled; `connect` does not dial when a connection with the expected DID exists) -/
+
+/-- what must hold of EVERY connection in the list, whoever created it: marked authenticated only with a DID and a covering
+    certificate; every stream on it named the connection's DID in its own set-up and, when there is a DID, proved it with its
+    own certificate -/
+def Safe (E : InEnv) (c : Conn) : Prop :=
+  (c.peer.authenticated = true → c.peer.did ≠ "" ∧ CertCovers E c.peer.did c.cert) ∧
+  ∀ s ∈ c.streams, s.claimed = c.peer.did ∧ (c.peer.did ≠ "" → CertCovers E c.peer.did s.auth.cert)
+
+def AllSafe (E : InEnv) (cs : List Conn) : Prop := ∀ c ∈ cs, Safe E c
+
+/-- the inbound wrapper with the TLS authenticator, zero peer: no error ⇒ the DID is the claimed one, and a non-empty one is proved -/
+theorem cmAuthenticate_tls_zero (e : AuthEnv) (claimed : String) (i : AuthIn)
+    (h : (cmAuthenticate .tls e claimed { key := 0 } i).2 = false) :
+    (cmAuthenticate .tls e claimed { key := 0 } i).1.did = claimed ∧
+    ((cmAuthenticate .tls e claimed { key := 0 } i).1.authenticated = true → claimed ≠ "") ∧
+    (claimed ≠ "" → ∃ dns ep host, i.cert = some dns ∧ i.endpoint = some ep ∧ e.parseHost ep = some host ∧
+      e.verifyHostname dns host = true) := by
+  by_cases hc : claimed = ""
+  · subst hc
+    simp [cmAuthenticate]
+  · obtain ⟨h1, h2⟩ := cmAuthenticate_tls_ok e claimed { key := 0 } i hc h
+    rw [h1]
+    exact ⟨rfl, fun _ => hc, fun _ => h2⟩
+
+theorem attach_safe (E : InEnv) (id did : String) (r : StreamRec) (fresh : Conn)
+    (hr : r.claimed = did ∧ (did ≠ "" → CertCovers E did r.auth.cert)) (hf : Safe E fresh) :
+    ∀ cs, AllSafe E cs → AllSafe E (attach id did r fresh cs).1 := by
+  intro cs
+  induction cs with
+  | nil => intro _ c hc; simp [attach] at hc; subst hc; exact hf
+  | cons c rest ih =>
+    intro h
+    have hc0 : Safe E c := h c (by simp)
+    have hrest : AllSafe E rest := fun x hx => h x (by simp [hx])
+    unfold attach
+    by_cases hm : (c.id == id && c.peer.did == did) = true
+    · simp only [hm, if_true]
+      by_cases hp : hasProto c r.proto = true
+      · simp only [hp, if_true]; exact h
+      · simp only [hp, Bool.false_eq_true, if_false]
+        intro x hx
+        rcases List.mem_cons.mp hx with hx | hx
+        · subst hx
+          have hdid : c.peer.did = did := by
+            have := (Bool.and_eq_true _ _).mp hm
+            simpa using this.2
+          refine ⟨hc0.1, ?_⟩
+          intro s hs
+          rcases List.mem_append.mp hs with hs | hs
+          · exact hc0.2 s hs
+          · have : s = r := by simpa using hs
+            subst this
+            show s.claimed = c.peer.did ∧ (c.peer.did ≠ "" → CertCovers E c.peer.did s.auth.cert)
+            rw [hdid]; exact hr
+        · exact hrest x hx
+    · simp only [hm, Bool.false_eq_true, if_false]
+      intro x hx
+      rcases List.mem_cons.mp hx with hx | hx
+      · subst hx; exact hc0
+      · exact ih hrest x hx
+
+theorem handleInbound_safe (E : InEnv) (hk : E.kind = .tls) (cs : List Conn) (s : StreamIn) (h : AllSafe E cs) :
+    AllSafe E (handleInbound E cs s).1 := by
+  unfold handleInbound
+  split
+  · rename_i pid claimed _
+    by_cases hf : (streamAuth E claimed s).2 = true
+    · simp only [hf, if_true]; exact h
+    · have hf' : (streamAuth E claimed s).2 = false := by simpa using hf
+      simp only [hf', Bool.false_eq_true, if_false]
+      have hz : (cmAuthenticate .tls E.auth claimed { key := 0 } (streamAuthIn E claimed s)).2 = false := by
+        rw [← hk]; exact hf'
+      obtain ⟨hd, ha, hcov⟩ := cmAuthenticate_tls_zero E.auth claimed _ hz
+      have hd' : (streamAuth E claimed s).1.did = claimed := by unfold streamAuth; rw [hk]; exact hd
+      have ha' : (streamAuth E claimed s).1.authenticated = true → claimed ≠ "" := by unfold streamAuth; rw [hk]; exact ha
+      have hcv : claimed ≠ "" → CertCovers E claimed s.cert := by
+        intro hne
+        obtain ⟨dns, ep, host, h1, h2, h3, h4⟩ := hcov hne
+        exact ⟨dns, ep, host, h1, h2, h3, h4⟩
+      have hr : (streamRec E claimed s).claimed = (streamAuth E claimed s).1.did ∧
+          ((streamAuth E claimed s).1.did ≠ "" → CertCovers E (streamAuth E claimed s).1.did (streamRec E claimed s).auth.cert) := by
+        rw [hd']; exact ⟨rfl, hcv⟩
+      have hfresh : Safe E (freshConn E pid claimed s) := by
+        refine ⟨?_, ?_⟩
+        · intro hau
+          show (streamAuth E claimed s).1.did ≠ "" ∧ CertCovers E (streamAuth E claimed s).1.did s.cert
+          rw [hd']; exact ⟨ha' hau, hcv (ha' hau)⟩
+        · intro x hx
+          have : x = streamRec E claimed s := by simpa [freshConn] using hx
+          subst this
+          exact hr
+      have := attach_safe E pid _ _ _ hr hfresh cs h
+      split
+      · exact h
+      · exact this
+  · exact h
+
+theorem registerOut_safe (E : InEnv) (c : Conn) (r : StreamRec) (hc : Safe E c)
+    (hr : r.claimed = c.peer.did ∧ (c.peer.did ≠ "" → CertCovers E c.peer.did r.auth.cert)) :
+    Safe E (registerOut c r).1 := by
+  unfold registerOut
+  split
+  · exact hc
+  · refine ⟨hc.1, ?_⟩
+    intro s hs
+    rcases List.mem_append.mp hs with hs | hs
+    · exact hc.2 s hs
+    · have : s = r := by simpa using hs
+      subst this
+      exact hr
+
+theorem openOutboundStream_safe (E : InEnv) (hk : E.kind = .tls) (c : Conn) (s : OutStream)
+    (hc : Safe E c) : Safe E (openOutboundStream E c s).1 := by
+  unfold openOutboundStream
+  split
+  · exact hc
+  split
+  · exact hc
+  split
+  · exact hc
+  split
+  · rename_i pid srv _
+    obtain ⟨hp, hce, hst⟩ := verifyOrSetPeerID_same c pid
+    have hc1 : Safe E (verifyOrSetPeerID c pid).1 := by
+      unfold Safe
+      rw [hp, hce, hst]
+      exact hc
+    split
+    · exact hc1
+    · simp only []
+      split
+      · rename_i hd
+        split
+        · exact hc1
+        split
+        · exact hc1
+        · rename_i hsrv0 hsrv
+          have hsrv' : srv = (verifyOrSetPeerID c pid).1.peer.did := by simpa using hsrv
+          have hxne : srv ≠ "" := by simpa using hsrv0
+          split
+          · exact hc1
+          · rename_i ha
+            have ha' : (cmAuthenticate .tls E.auth srv (verifyOrSetPeerID c pid).1.peer (outAuthIn E srv s)).2 = false := by
+              rw [← hk]; simpa using ha
+            obtain ⟨hp1, dns, ep, host, h1, h2, h3, h4⟩ := cmAuthenticate_tls_ok E.auth srv _ _ hxne ha'
+            rw [hk]
+            rw [hp1]
+            have hcov : CertCovers E srv s.cert := ⟨dns, ep, host, h1, h2, h3, h4⟩
+            apply registerOut_safe
+            · refine ⟨fun _ => ⟨hxne, hcov⟩, ?_⟩
+              intro t ht
+              have := hc1.2 t ht
+              rw [← hsrv'] at this
+              exact this
+            · exact ⟨rfl, fun _ => hcov⟩
+      · rename_i hd
+        have hx : (verifyOrSetPeerID c pid).1.peer.did = "" := by simpa using hd
+        apply registerOut_safe
+        · refine ⟨fun ha => ?_, hc1.2⟩
+          exact absurd hx (hc1.1 ha).1
+        · exact ⟨hx.symm, fun h => absurd hx h⟩
+  · exact hc
+
+theorem modifyAt_safe (E : InEnv) (f : Conn → Conn) (hf : ∀ c, Safe E c → Safe E (f c)) :
+    ∀ (cs : List Conn) (i : Nat), AllSafe E cs → AllSafe E (modifyAt cs i f) := by
+  intro cs
+  induction cs with
+  | nil => intro i h; simpa [modifyAt] using h
+  | cons c rest ih =>
+    intro i h
+    have hc0 : Safe E c := h c (by simp)
+    have hrest : AllSafe E rest := fun x hx => h x (by simp [hx])
+    cases i with
+    | zero =>
+      intro x hx
+      simp only [modifyAt] at hx
+      rcases List.mem_cons.mp hx with hx | hx
+      · subst hx; exact hf c hc0
+      · exact hrest x hx
+    | succ j =>
+      intro x hx
+      simp only [modifyAt] at hx
+      rcases List.mem_cons.mp hx with hx | hx
+      · subst hx; exact hc0
+      · exact ih j hrest x hx
+
+theorem stepM_safe (E : InEnv) (hk : E.kind = .tls) (cs : List Conn) (ev : MEv) (h : AllSafe E cs) :
+    AllSafe E (stepM E cs ev) := by
+  cases ev with
+  | inOpen s => exact handleInbound_safe E hk cs s h
+  | close sid => intro c hc; exact h c (List.mem_filter.mp hc).1
+  | dial a x =>
+    show AllSafe E (dialOut cs a x).1
+    unfold dialOut
+    by_cases hb : (cs.any (fun c => if x == "" then c.addr == a && c.peer.did == "" else c.peer.did == x)) = true
+    · rw [if_pos hb]; exact h
+    · rw [if_neg hb]
+      intro c hc
+      rcases List.mem_append.mp hc with hc | hc
+      · exact h c hc
+      · have : c = { dialled x with addr := a } := by simpa using hc
+        subst this
+        exact ⟨fun ha => by simp [dialled] at ha, fun s hs => by simp [dialled] at hs⟩
+  | outStream i s => exact modifyAt_safe E _ (fun c hc => openOutboundStream_safe E hk c s hc) cs i h
+  | outEnd i => intro c hc; exact h c (List.mem_of_mem_eraseIdx hc)
+
+/-- **C15, clause 1, the shared connection list.** For every interleaving of inbound streams, stream ends, dials, outbound
+    stream set-ups and outbound failures (from the empty list): a connection is marked authenticated only with a non-empty DID
+    and a certificate covering the NutsComm host of it, and EVERY stream on it — also an inbound stream that joined a connection
+    this node dialled, or the other way round — named that DID in its own set-up and proved it with its own certificate. -/
+theorem connection_list_identity_safe (E : InEnv) (hk : E.kind = .tls) (evs : List MEv) :
+    ∀ c ∈ runM E [] evs,
+      (c.peer.authenticated = true → c.peer.did ≠ "" ∧ CertCovers E c.peer.did c.cert) ∧
+      ∀ s ∈ c.streams, s.claimed = c.peer.did ∧ (c.peer.did ≠ "" → CertCovers E c.peer.did s.auth.cert) := by
+  have : ∀ (evs : List MEv) (cs : List Conn), AllSafe E cs → AllSafe E (runM E cs evs) := by
+    intro evs
+    induction evs with
+    | nil => intro cs h; exact h
+    | cons ev rest ih =>
+      intro cs h
+      simp only [runM, List.foldl_cons]
+      exact ih _ (stepM_safe E hk cs ev h)
+  exact this evs [] (by intro c hc; cases hc)
+
+/-- end to end over the shared list: a private payload leaves on a connection of ANY reachable list only if the connection's DID
+    is on the decrypted list and every stream on the connection proved that DID with its own certificate -/
+theorem connection_list_to_release_sound (E : InEnv) (hk : E.kind = .tls) (evs : List MEv) (c : Conn)
+    (hc : c ∈ runM E [] evs) (cfg : Cfg) (env : Env) (n : Node) (key : Nat) (m : Msg)
+    (o : Nat × Msg) (ho : o ∈ allOut env (handle cfg env n { c.peer with key := key } m)) (ref : Ref) (p : Payload)
+    (hpl : o.2 = .payload ref (some p)) :
+    ∃ tx, getTx n.dag ref = some tx ∧ readPayload n tx.payloadHash = some p ∧
+      (tx.pal ≠ [] →
+        (∃ dids, decryptPAL env n tx.pal = .pal dids ∧ c.peer.did ∈ dids) ∧
+        CertCovers E c.peer.did c.cert ∧
+        ∀ s ∈ c.streams, s.claimed = c.peer.did ∧ CertCovers E c.peer.did s.auth.cert) := by
+  obtain ⟨_, _, tx, h1, h2, h3⟩ := private_payload_release_sound cfg env n { c.peer with key := key } m o ho ref p hpl
+  refine ⟨tx, h1, h2, ?_⟩
+  intro hpal
+  obtain ⟨ha, dids, hd, hmem⟩ := h3 hpal
+  have hs := connection_list_identity_safe E hk evs c hc
+  obtain ⟨hne, hcov⟩ := hs.1 ha
+  exact ⟨⟨dids, hd, hmem⟩, hcov, fun s hs' => ⟨(hs.2 s hs').1, (hs.2 s hs').2 hne⟩⟩
+
+
+/-- non-vacuity: the node dials v (peer ID S fixed by the first stream, authenticated), then an inbound stream with peer ID S that
+    proves v JOINS the dialled connection; one that claims v with another certificate is refused; an anonymous one gets its own
+    unauthenticated connection; a second dial of v does nothing -/
+example : (runM exE [] [.dial "v.example:5555" "did:nuts:v", .outStream 0 (exOut ["S"] ["did:nuts:v"] (some ["v.example"]) "p1"),
+    .inOpen ⟨7, ["S"], ["did:nuts:v"], some ["v.example"], "p2"⟩, .inOpen ⟨8, ["S"], ["did:nuts:v"], some ["x.example"], "p3"⟩,
+    .inOpen ⟨9, ["S"], [], some ["x.example"], "p2"⟩, .dial "v.example:5555" "did:nuts:v"]).map
+    (fun c => (c.peer.authenticated, c.peer.did, c.streams.map (·.sid))) = [(true, "did:nuts:v", [0, 7]), (false, "", [9])] := by decide
+
 end Nuts.C15.Props
